@@ -85,7 +85,9 @@ JudgeEncapQ(e, s, q, crc) ==
       ltOk   == kindOk => CASE L.k = "ru" -> wl = "ru"
                              [] L.k = "bc" -> wl = "bc"
                              [] OTHER      -> (wl = L.k /\ w.label = L.b) \/ wl = "ru"
-      fitsFull == CompleteFits(P, LtLen(L.k), extLen, B)
+      \* "label as written (empty after a re-use substitution)": the sender's policy is deterministic - it
+      \* substitutes whenever C15 allows it - so when substitution is allowed the label as written is empty
+      fitsFull == CompleteFits(P, minWll, extLen, B)
       fitsWire == CompleteFits(P, wll, extLen, B)
       tl     == P + PtypeLen + wll
       needCrc == kindOk /\ w.ok /\ r.t = "fragmented" /\ ~TotalTooLong(P, wll) /\ crc.need
@@ -109,9 +111,9 @@ JudgeEncapQ(e, s, q, crc) ==
            V(r.t # "panic", <<"C09">>, "Tx.NoPanic")
         \cup V(r.t = "err" => (e.state_same /\ e.buf_same), <<"C09">>, "Tx.ErrAtomic")
         \cup V(mustRej => ~ok, IF extBad /\ ~zero /\ ~PtypeRejected(T) THEN <<"C13">> ELSE <<"C09">>, "Tx.MustReject")
-        \cup V(~isExt /\ ~mustRej /\ r.t = "err" => ~fitsFull, <<"C01">>, "Tx.MustComplete.err")
+        \cup V(~isExt /\ ~mustRej /\ r.t \in {"err", "panic"} => ~fitsFull, <<"C01">>, "Tx.MustComplete.err")
         \cup V(~isExt /\ kindOk /\ r.t = "fragmented" => ~fitsWire, <<"C01">>, "Tx.MustComplete.frag")
-        \cup V(~isExt /\ ~mustRej /\ B >= 13 => (ok \/ r.t = "panic"), <<"C02">>, "Tx.Buf13Accepted")
+        \cup V(~isExt /\ ~mustRej /\ B >= 13 => ok, <<"C02">>, "Tx.Buf13Accepted")
         \cup V(ok => Len(wire) = r.len, <<"C06">>, "Tx.LenWithinBuffer")
         \cup V(ok => e.tail_ok, <<"C06">>, "Tx.TailUntouched")
         \cup V(q.hdrOk => ~hdr.pad, <<"C10">>, "Tx.NotPadding")
@@ -177,7 +179,7 @@ JudgeFragQ(e, q) ==
         \cup V(r.t = "err" => (e.state_same /\ e.buf_same), <<"C09">>, "Frag.ErrAtomic")
         \cup V(e.state_same \/ r.t = "panic", <<"C09">>, "Frag.SenderUntouched")
         \cup V(mustRej => ~ok, <<"C09">>, "Frag.MustReject")
-        \cup V(~mustRej /\ B >= 7 /\ inRange => (ok \/ r.t = "panic"), <<"C11", "C02">>, "Frag.Buf7Accepted")
+        \cup V(~mustRej /\ B >= 7 /\ inRange => ok, <<"C11", "C02">>, "Frag.Buf7Accepted")
         \cup V(ok => Len(wire) = r.len, <<"C06">>, "Frag.LenWithinBuffer")
         \cup V(ok => e.tail_ok, <<"C06">>, "Frag.TailUntouched")
         \cup V(q.hdrOk => ~hdr.pad, <<"C10">>, "Frag.NotPadding")
